@@ -141,6 +141,9 @@ fn model_equal(a: &T, b: &T) -> bool {
 
 /// operation alphabets: insertions of small terms, all model-valid unions among them, rewrite iterations
 pub fn alphabet(level: usize) -> Vec<AOp> {
+    if level == 2 {
+        return cascade_alphabet();
+    }
     let size = if level == 0 { 2 } else { 3 };
     let mut terms = start_terms(size);
     terms.extend(special_terms().into_iter().take(4));
@@ -172,6 +175,48 @@ pub fn alphabet(level: usize) -> Vec<AOp> {
     ops
 }
 
+/// level 2: a small hand-made term set around CASCADING merges: parents that become congruent when their
+/// children are united (the absorbed parent class keeps no e-node), classes that die into a class with fewer
+/// slots, and handles that end up several merges behind
+fn cascade_alphabet() -> Vec<AOp> {
+    let n = |s: &'static str| T { op: s, args: vec![] };
+    let x = || leaf("var", &[0]);
+    let m0 = || node2("mul", x(), n("0"));
+    let m0r = || node2("mul", n("0"), x());
+    let x0 = || node2("add", x(), n("0"));
+    let x1 = || node2("mul", x(), n("1"));
+    let terms: Vec<T> = vec![
+        x(),
+        n("0"),
+        m0(),
+        m0r(),
+        node1("neg", m0()),
+        node1("neg", m0r()),
+        node2("add", node1("neg", m0()), node1("neg", m0r())),
+        x0(),
+        x1(),
+        node1("neg", x()),
+        node1("neg", x0()),
+        node1("neg", x1()),
+        node2("add", node1("neg", x0()), node1("neg", x1())),
+        node1("neg", node1("neg", x())),
+        n("2"),
+        node2("add", n("1"), n("1")),
+    ];
+    let mut ops: Vec<AOp> = terms.iter().map(|t| AOp::Add(t.clone())).collect();
+    for i in 0..terms.len() {
+        for j in (i + 1)..terms.len() {
+            if model_equal(&terms[i], &terms[j]) {
+                ops.push(AOp::Union(terms[i].clone(), terms[j].clone()));
+            }
+        }
+    }
+    for i in 0..rw_sets().len() {
+        ops.push(AOp::Rw(i));
+    }
+    ops
+}
+
 thread_local! {
     static ALPHA: std::cell::RefCell<HashMap<usize, std::rc::Rc<Vec<AOp>>>> = Default::default();
 }
@@ -181,8 +226,8 @@ pub fn cached_alphabet(level: usize) -> std::rc::Rc<Vec<AOp>> {
 
 fn spaces(tier: Tier) -> Vec<(usize, u32)> {
     match tier {
-        Tier::Quick => vec![(0, 1), (0, 2), (1, 1)],
-        Tier::Thorough => vec![(0, 1), (0, 2), (1, 1), (0, 3), (1, 2)],
+        Tier::Quick => vec![(0, 1), (0, 2), (1, 1), (2, 2), (2, 3)],
+        Tier::Thorough => vec![(0, 1), (0, 2), (1, 1), (2, 2), (2, 3), (2, 4), (0, 3), (1, 2)],
     }
 }
 
@@ -297,10 +342,36 @@ impl Oracle for ConstFold {
     }
 }
 
-fn check_state<N: Oracle>(eg: &EGraph<Ar, N>, when: &str, fails: &mut Vec<Fail>, evals: &mut u64)
+/// insert every sub-term bottom-up and record the invocation returned for each (old handles are kept for the
+/// whole run: they go stale when their class is merged away)
+fn add_ar_rec<N: Analysis<Ar>>(eg: &mut EGraph<Ar, N>, t: &T, handles: &mut Vec<AppliedId>) -> AppliedId {
+    for a in &t.args {
+        if let Arg::Child(c) | Arg::Bind(_, c) = a {
+            add_ar_rec(eg, c, handles);
+        }
+    }
+    let a = add_ar(eg, t);
+    if !handles.contains(&a) {
+        handles.push(a.clone());
+    }
+    a
+}
+
+fn check_state<N: Oracle>(eg: &EGraph<Ar, N>, handles: &[AppliedId], when: &str, fails: &mut Vec<Fail>, evals: &mut u64)
 where
     N::Data: std::fmt::Debug,
 {
+    // equal classes share one datum: the datum read through an old (possibly several merges stale) handle is the
+    // datum of the class it now belongs to.  Read through ALL old ids first, before anything canonicalises them.
+    let through_old: Vec<N::Data> = handles.iter().map(|h| eg.analysis_data(h.id).clone()).collect();
+    for (h, d_old) in handles.iter().zip(through_old.iter()) {
+        *evals += 1;
+        let live = eg.find_applied_id(h);
+        let d_live = eg.analysis_data(live.id).clone();
+        if *d_old != d_live {
+            fails.push(("stale-handle-datum".into(), format!("[{}] analysis_data through the old handle {h:?} is {d_old:?} but its class {:?} has {d_live:?}", N::NAME, live.id), when.to_string()));
+        }
+    }
     let lfp = N::least_fixpoint(eg);
     for i in eg.ids() {
         *evals += 1;
@@ -338,16 +409,17 @@ where
     let mut fps = Vec::new();
     let seq = ops.iter().map(|o| o.show()).collect::<Vec<_>>().join(" ; ");
     let mut last_root: Option<(AppliedId, T)> = None;
+    let mut handles: Vec<AppliedId> = Vec::new();
     for (step, op) in ops.iter().enumerate() {
         let when = format!("after step {step} ({}) of [{seq}]", op.show());
         let r = catch(|| match op {
             AOp::Add(t) => {
-                let a = add_ar(&mut eg, t);
+                let a = add_ar_rec(&mut eg, t, &mut handles);
                 Some((a, t.clone(), None))
             }
             AOp::Union(l, r) => {
-                let a = add_ar(&mut eg, l);
-                let b = add_ar(&mut eg, r);
+                let a = add_ar_rec(&mut eg, l, &mut handles);
+                let b = add_ar_rec(&mut eg, r, &mut handles);
                 let da = eg.analysis_data(a.id).clone();
                 let db = eg.analysis_data(b.id).clone();
                 eg.union(&a, &b);
@@ -381,7 +453,7 @@ where
                 if matches!(op, AOp::Rw(_)) {
                     goals |= 2;
                 }
-                check_state(&eg, &when, &mut fails, &mut evals);
+                check_state(&eg, &handles, &when, &mut fails, &mut evals);
                 if let Some(c) = CONST_CONFLICT.with(|c| c.borrow_mut().take()) {
                     fails.push(("conflicting-constants".into(), format!("[{}] {c}", N::NAME), when.clone()));
                 }
@@ -413,7 +485,7 @@ impl Prop for AnalysisProp {
             .into_iter()
             .map(|(lvl, d)| {
                 let n = alphabet(lvl).len() as u64;
-                Seg { name: format!("ops{lvl}^{d}"), count: n.pow(d), what: format!("one index = one sequence of {d} operations over a {n}-operation alphabet (insertions of small arithmetic terms, every model-valid union between them, 5 rewrite-iteration rule sets), run under each of the three analyses") }
+                Seg { name: format!("ops{lvl}^{d}"), count: n.pow(d), what: format!("one index = one sequence of {d} operations over a {n}-operation alphabet (insertions of small arithmetic terms - level 2: 16 hand-made terms around cascading merges -, every model-valid union between them, 5 rewrite-iteration rule sets), run under each of the three analyses") }
             })
             .collect()
     }
@@ -421,7 +493,7 @@ impl Prop for AnalysisProp {
         vec!["union_of_classes_with_different_data", "rewrite_iteration", "classes_merged", "constant_class_checked_against_model"]
     }
     fn rule(&self) -> String {
-        "Every ordered sequence of the stated length over: insertion of every arithmetic term of size <=2 (level 1: <=3), every union of two such terms that denote the same function in F_5 and F_7, and five rewrite-iteration rule sets, is executed three times, under the analyses min-size (merge=min), constant folding in F_5 with a modify hook that adds the constant, and depth (merge=min). After EVERY operation, at EVERY live class: the datum equals the join of make over eg.enodes() on the current data, equals an independently computed least fixpoint, and a union's result absorbs both previous data; at the end min-size equals Extractor::get_best_cost(AstSize), a Some(v) constant class denotes the constant v in the finite-field model, and no two different constants were ever merged. Non-trivial = sequences with a rewrite iteration or a union.".into()
+        "Every ordered sequence of the stated length over: insertion of every arithmetic term of size <=2 (level 1: <=3; level 2: 16 hand-made terms whose unions cascade: parents that become congruent, classes dying into a class with fewer slots), every union of two such terms that denote the same function in F_5 and F_7, and five rewrite-iteration rule sets, is executed three times, under the analyses min-size (merge=min), constant folding in F_5 with a modify hook that adds the constant, and depth (merge=min). After EVERY operation, at EVERY live class: the datum equals the join of make over eg.enodes() on the current data, equals an independently computed least fixpoint, and a union's result absorbs both previous data; analysis_data read through EVERY handle ever returned (all sub-terms, however many merges stale, read before anything canonicalises them) equals the datum of the class the handle now belongs to; at the end min-size equals Extractor::get_best_cost(AstSize), a Some(v) constant class denotes the constant v in the finite-field model, and no two different constants were ever merged. Non-trivial = sequences with a rewrite iteration or a union.".into()
     }
     fn assumptions(&self) -> Vec<String> {
         vec!["unions are restricted to model-valid equations so that constant folding has a meaning".into()]
